@@ -2,15 +2,52 @@
 """Regenerates MANIFEST.json from the table below (one entry per claimed property)."""
 import json, os
 V = os.path.dirname(os.path.dirname(os.path.abspath(__file__)))
+T_SEQ = "Coq proof over Gallina model + differential correspondence (extracted model vs implementation)"
+T_TIE = "Coq proof over Gallina model + translator tie (Gen = Model re-proved) + differential correspondence"
+N_SEQ = "Coq kernel; extraction + OCaml driver; correspondence harness; sequential model (one caller thread, n_threads=1); CPython datetime modelled not verified"
 CLAIMED = {
  "C01": ("3.1-3.3, 5 (C01)",
    "Theorems in coq/Props/C01.v (first due = least matching instant after the reference; each execution moves it by exactly one period; k-fold life of the job; reported timedelta; ignored fields) hold for every time of day, reference, offset triple and number of executions. The model is tied to the source on every run twice: the arithmetic of scheduler/util.py is re-translated and re-proved equal to the model (Tie lemmas), and generated single-job histories are run on the real scheduler and on the extracted model.",
-   "Coq kernel; extraction + OCaml driver; translator py2v.py and Lib/PyTime.v; CPython datetime is modelled (Z microseconds, fixed offsets), not verified; correspondence covers years 1971-2999",
-   "Coq proof over Gallina model + translator tie + differential correspondence"),
+   "Coq kernel; extraction + OCaml driver; translator py2v.py and Lib/PyTime.v; CPython datetime is modelled (Z microseconds, fixed offsets), not verified; correspondence covers years 1971-2999", T_TIE),
  "C02": ("3.1-3.3, 5 (C02)",
    "Theorems in coq/Props/C02.v: days_to_weekday in 1..7 and landing on the target for all pairs; next_weekday_time_occurrence is the least instant after the reference with matching weekday and time read in the trigger's offset; successive due times are 7 days apart; the same-weekday rule; k-fold life of a weekly job. Tied by re-translation of util.py (Tie lemmas) and by the weekly correspondence stream.",
-   "as C01; the Weekday classes and the weekday() factory are covered by the correspondence only",
-   "Coq proof over Gallina model + translator tie + differential correspondence"),
+   "as C01; the Weekday classes and the weekday() factory are covered by the correspondence only", T_TIE),
+ "C03": ("5 (C03)",
+   "Props/C03.v: after n executions at arbitrary polling instants a cyclic job is planned for s+(n+1)T (s+nT with delay=False), for every s, T and history; once(datetime/timedelta/time/weekday) are exact resp. the next occurrence, all with max_attempts 1. Tied by the cyclic correspondence stream (irregular polls, polls on an occurrence, gaps of many intervals, once() of all four kinds).",
+   N_SEQ + "; once() dispatch (JOB_TYPE_MAPPING) is a model function tied by correspondence only", T_TIE),
+ "C04": ("3.4, 5 (C04)",
+   "Props/C04.v: on every reachable state and for every iteration order, exec_jobs computes one priority per registered job from now-due, runs exactly the jobs of positive priority (default function: positive iff weight>0 and due<=now, overdue 0 included), each once, returns that count; a poll with nothing due changes no job; force_exec_all runs every registered job once. Tied by correspondence over mixed populations with polls at due, due-1us, due+0, and by re-translation of prioritization.py.",
+   N_SEQ + "; IEEE rounding of the priority value is modelled over exact rationals (sign compared exactly)", T_TIE),
+ "C05": ("3.4, 5 (C05)",
+   "Props/C05.v, for an arbitrary priority assignment: count = min(max_exec, #positive); top-k (no waiting job with positive priority beats a chosen one); never a priority <= 0; non-increasing run order; the priority function's call log (once per registered job with now-due, max_exec, job count); exact-arithmetic laws of the built-in functions. Tied by correspondence with scripted user priority tables (negatives, zeros, ties) and the built-ins, all max_exec values; re-translation of prioritization.py.",
+   N_SEQ + "; float rounding of the built-ins modelled not verified; set iteration order is read from the implementation", T_TIE),
+ "C06": ("5 (C06)",
+   "Props/C06.v: invariant proved by induction over ALL operation histories (scheduling calls of six kinds, deletions, queries, normal and forced polls, failing callbacks, re-entrant callbacks): attempts <= max_attempts for every job object ever created, every registered job has attempts left (so the call performing the n-th invocation removes it), ids that left the set never reappear, once() is max_attempts=1. Tied by the limits/general correspondence streams.",
+   N_SEQ + "; asyncio front end: C17", T_SEQ),
+ "C07": ("5 (C07)",
+   "Props/C07.v: in every reachable state a registered job's planned instant is <= stop (so every invocation belongs to a due time <= stop); rescheduling marks a job whose next due time exceeds stop and the same call removes it; a job whose first due time is past stop is never registered (scheduling calls and constructor); first due is after start; stop <= start is rejected with SchedulerError. Tied by the limits stream (stop on/±1us around occurrences, constructor-injected jobs).",
+   N_SEQ, T_SEQ),
+ "C08": ("5 (C08)",
+   "Props/C08.v: without skip_missing n executions at arbitrary instants consume exactly the n oldest occurrences (none lost); with skip_missing the rescheduled timer is an occurrence, >= t, later than the one consumed, with no occurrence strictly between t and it (cyclic: exactly t+T). The job-level cyclic claim is proved in partial form and REFUTED for delay=False (known finding cyclic-skip-nodelay, replayed on the implementation on every run).",
+   N_SEQ, T_TIE),
+ "C09": ("5 (C09)",
+   "Props/C09.v: a created batched job satisfies an invariant under which the successive due times are chained by 'next occurrence of the union of all entries' (ascending, no omission, no repetition) over any number of executions; one call invokes a job at most once; the duplicate check accepts a list iff its entries denote pairwise different recurring instants (minutely/hourly/daily via instant mod period, weekly via the first occurrence after 1970-01-01). Tied by re-translation of are_times_unique and the batch stream (1-5 entries with independent offsets).",
+   N_SEQ + "; are_weekday_times_unique is a model function (weekday_key) tied by correspondence only", T_TIE),
+ "C10": ("5 (C10)",
+   "Props/C10.v: for ANY outcome oracle and callback programs exec_jobs returns normally and keeps the state good; the whole batch is invoked; each raising invocation counts failure+attempt and emits exactly one error record; rescheduling/retiring never read the failure counter; failed <= attempts always. Tied by fault injection in the faults stream (six Exception subclasses, intermittent failures, user and default logger).",
+   N_SEQ + "; Python try/except and logging are modelled (events), asyncio front end in C17/C18", T_SEQ),
+ "C11": ("5 (C11)",
+   "Props/C11.v: exact effect of every operation on the job set (schedule adds the fresh id iff the job can run; a rejected call changes nothing; delete_job removes or raises and changes nothing; delete_jobs removes exactly the selection and returns its size; queries change nothing), members are exactly the jobs that can still run, and an id that left the set never reappears (induction over histories). Tied by the registry stream (all six scheduling calls valid/invalid, deletes of registered/deleted/retired/foreign jobs, queries, polls; every returned set is cleared).",
+   N_SEQ + "; asyncio front end: C18", T_SEQ),
+ "C12": ("5 (C12)",
+   "Props/C12.v: tag_match is subset (any_tag false) / non-empty intersection (true); get_jobs returns and delete_jobs removes exactly the matching registered jobs, None/empty = all; tags given to once() are kept on every timing path. Tied by the registry stream with once() tags passed as set, frozenset, list, tuple, generator, dict keys and None.",
+   N_SEQ + "; Python set operators modelled by duplicate-free lists", T_SEQ),
+ "C13": ("5 (C13)",
+   "Props/C13.v: creation succeeds only with uniform awareness of every timing entry, start and stop; any mixed value is rejected by the call itself, always with SchedulerError (the model's datetime operations do return TypeError on mixing); the constructor rejects foreign-timezone jobs; no operation on a reachable state ever raises TypeError; offset invariance: same recurring instants + same reference instant give the same due instants at creation and after every rescheduling (with/without skip_missing). Tied by the awareness stream (random naive/aware assignments to scheduler, entries, start, stop, all calls and the constructor).",
+   N_SEQ + "; typeguard acceptance of timing types is an oracle", T_SEQ),
+ "C19": ("5 (C19)",
+   "Props/C19.v: jobs own their arguments/keyword mapping/tags as values (abstract spec); creation stores exactly what was given, no operation changes a job's configuration, every invocation passes exactly those values. That the implementation refines this (insulation from the caller's later mutations) is checked by the correspondence: the harness mutates the passed dict, the passed tag set and the set returned by .tags after every scheduling call.",
+   N_SEQ + "; dict.copy()/set.copy() modelled as value ownership", T_SEQ),
 }
 def main():
     m = json.load(open(os.path.join(V, "MANIFEST.json")))
